@@ -230,7 +230,7 @@ def obligations(tier, seed):
     for pre_, m in ((0, 0), (2, 0), (3, 0), (0, 1)) if tier == "quick" else [(0, 0), (2, 0), (3, 0), (0, 1)]:
         for lo in range(0, ncell, 32):
             hi = min(lo + 32, ncell)
-            if tier == "quick" and (pre_, m, lo // 32) not in ((0, 0, 0), (0, 0, 1), (3, 0, 0), (2, 0, 1), (0, 1, 1)):
+            if tier == "quick" and (pre_, m, lo // 32) not in ((0, 0, 0), (3, 0, 1), (0, 1, 2)):
                 continue
             obs.append(Ob(name="agrees_grid_%s_%s_%d" % (PRE[pre_], "method" if m else "function", lo // 32), params=[("c", "int")],
                           pre=["%d <= c < %d" % (lo, hi)],
